@@ -1,8 +1,265 @@
-//! stub — to be implemented
-use crate::common::{Ctx, Report};
+//! C08 — workers answer each command exactly once and converge on the master's view
+//! (also covers C07 level iii: a command the worker answers with FAILURE leaves its state alone).
+//!
+//! Live-worker lab: a real `sozu_lib::server::Server` per case, the harness playing the main
+//! process on the command channel. Oracles: (1) exactly-once terminal answer per request id,
+//! (2) convergence of the worker's queryable view on a reference `ConfigState` fed like the main
+//! process's, (3) listening / routing behaviour matches that view, (4) FAILURE => state dump
+//! unchanged (`c07/…` signatures), (5) SoftStop: one final OK, thread exit, event order,
+//! (6) worker panics by location.
 
-pub fn run(_ctx: &Ctx) -> Report {
-    let mut rep = Report::new("exploration", "not implemented");
-    rep.broken("check not implemented yet");
+mod exec;
+mod net;
+mod plan;
+
+use std::{collections::BTreeMap, time::Instant};
+
+use serde_json::{Value, json};
+
+use crate::{
+    common::{Ctx, Report, Rng, par_cases},
+    lab,
+};
+use exec::{Outcome, run_plan};
+use plan::{Cell, Plan, WORKER_VERBS, generate, plan_json, verb};
+
+fn merge(rep: &mut Report, out: &Outcome) {
+    for (k, n) in &out.obs {
+        if let Some(key) = k.strip_prefix("max:") {
+            rep.obs_max(key, *n);
+        } else {
+            rep.obs(k, *n);
+        }
+    }
+    rep.obs("commands_sent", out.commands_sent);
+}
+
+/// delta-debugging on the command list: keep removing chunks while the signature reproduces
+fn ddmin(ctx: &Ctx, plan: &Plan, sig: &str, budget: usize, deadline: Instant) -> (Plan, usize) {
+    let mut best = plan.clone();
+    let mut runs = 0usize;
+    let mut chunk = (best.cmds.len() / 2).max(1);
+    let _ = ctx;
+    loop {
+        let mut i = 0;
+        let mut progressed = false;
+        while i < best.cmds.len() && runs < budget && Instant::now() < deadline {
+            if best.cmds.len() <= 1 {
+                break;
+            }
+            let mut cand = best.clone();
+            let end = (i + chunk).min(cand.cmds.len());
+            cand.cmds.drain(i..end);
+            runs += 1;
+            if run_plan(&cand).has(sig) {
+                best = cand;
+                progressed = true;
+            } else {
+                i += chunk;
+            }
+        }
+        if runs >= budget || Instant::now() >= deadline || (chunk == 1 && !progressed) {
+            break;
+        }
+        if !progressed || chunk > best.cmds.len() {
+            chunk = (chunk / 2).max(1);
+        }
+    }
+    (best, runs)
+}
+
+/// minimise a witness: first slice the plan down to the commands that name the objects of the
+/// violation, then delta-debug what is left. Every candidate is a real re-execution.
+fn minimise(ctx: &Ctx, plan: &Plan, sig: &str, detail: &Value, budget: usize, deadline: Instant) -> Option<(Plan, usize)> {
+    let focus = &detail["focus"];
+    let mut ports: Vec<u16> = focus["ports"].as_array().map(|a| a.iter().filter_map(|p| p.as_u64()).map(|p| p as u16).collect()).unwrap_or_default();
+    let mut clusters: Vec<String> = focus["clusters"].as_array().map(|a| a.iter().filter_map(|c| c.as_str()).map(|c| c.to_owned()).collect()).unwrap_or_default();
+    let listeners = focus["listeners"].as_bool().unwrap_or(false);
+    let pinned = detail["command_index"].as_u64().map(|i| i as usize).filter(|i| *i < plan.cmds.len());
+    if let Some(i) = pinned {
+        ports.extend(plan::cmd_ports(&plan.cmds[i].rt));
+        clusters.extend(plan::cmd_clusters(&plan.cmds[i].rt));
+    }
+    let mut base = plan.clone();
+    base.traffic = false;
+    let mut runs = 1usize;
+    // first re-execution: does it reproduce at all, and which commands did the (reference) main
+    // process forward? The ones it rejected never reached the worker: drop them for free, except a
+    // pinned command (a c07/master_state finding is about a rejected command).
+    let first = run_plan(&base);
+    if !first.has(sig) {
+        return None;
+    }
+    let mut pinned = pinned;
+    if !base.raw && !sig.starts_with("c07/master_state") {
+        let keep: std::collections::BTreeSet<usize> = first.forwarded_idx.iter().copied().collect();
+        let mut new_pinned = None;
+        let mut cmds = Vec::new();
+        for (i, c) in base.cmds.iter().enumerate() {
+            if keep.contains(&i) || Some(i) == pinned {
+                if Some(i) == pinned {
+                    new_pinned = Some(cmds.len());
+                }
+                cmds.push(c.clone());
+            }
+        }
+        base.cmds = cmds;
+        pinned = new_pinned;
+    }
+    let mut current: Option<Plan> = None;
+    let touches = |rt: &plan::RequestTypeAlias, wide: bool| {
+        plan::cmd_ports(rt).iter().any(|p| ports.contains(p))
+            || plan::cmd_clusters(rt).iter().any(|c| clusters.contains(c))
+            || ((wide || listeners) && plan::is_listener_lifecycle(rt))
+    };
+    if !ports.is_empty() || !clusters.is_empty() || listeners || pinned.is_some() {
+        for wide in [false, true] {
+            if Instant::now() >= deadline {
+                break;
+            }
+            let mut cand = base.clone();
+            cand.cmds = base.cmds.iter().enumerate().filter(|(i, c)| Some(*i) == pinned || touches(&c.rt, wide)).map(|(_, c)| c.clone()).collect();
+            if cand.cmds.is_empty() || cand.cmds.len() == base.cmds.len() {
+                continue;
+            }
+            runs += 1;
+            if run_plan(&cand).has(sig) {
+                current = Some(cand);
+                break;
+            }
+        }
+    }
+    let start = current.unwrap_or(base);
+    let (small, r) = ddmin(ctx, &start, sig, budget.saturating_sub(runs), deadline);
+    Some((small, runs + r))
+}
+
+fn shape(plan: &Plan) -> Vec<u8> {
+    let mut s = vec![plan.raw as u8, plan.burst as u8, plan.traffic as u8, plan.closing as u8];
+    for c in &plan.cmds {
+        let v = verb(&c.rt);
+        s.push(WORKER_VERBS.iter().position(|w| *w == v).unwrap_or(255) as u8);
+    }
+    s
+}
+
+fn run_case(ctx: &Ctx, case: u64, rep: &mut Report) {
+    let mut rng = Rng::for_case(ctx.seed, 8, case);
+    let cell = Cell { ip: lab::fresh_ip() };
+    let max_len = ctx.opt_u64("max_len", 200) as usize;
+    let plan = generate(&mut rng, cell, max_len);
+    let out = run_plan(&plan);
+    merge(rep, &out);
+    rep.obs_max("sequence_len", plan.cmds.len() as u64);
+    for b in &out.broken {
+        rep.broken(b);
+    }
+    for i in &out.inconclusive {
+        rep.inconclusive(i);
+    }
+    for v in &out.viol {
+        rep.violation(&v.sig, &v.what, json!({"case": case, "seed": ctx.seed, "commands": plan.cmds.len(), "what": v.what, "detail": v.detail, "plan": plan_json(&plan)}));
+    }
+    let nontrivial = out.commands_sent >= 5;
+    rep.case_bytes(&shape(&plan), nontrivial);
+    if case < 2 {
+        rep.sample(json!({"case": case, "plan": plan_json(&plan), "violations": out.viol.iter().map(|v| v.sig.clone()).collect::<Vec<_>>()}));
+    }
+}
+
+pub fn run(ctx: &Ctx) -> Report {
+    let mut rep = Report::new(
+        "exploration",
+        "one live worker per case; a random sequence of 10..200 requests over the 42 request types the main process can send to a worker (valid, invalid, duplicate and unknown-target arguments; lifecycle sub-sequences over-weighted), in raw mode (exactly-once only) or master-filtered mode (a reference ConfigState dispatches first, only accepted commands are forwarded; then convergence and behaviour oracles), sent one at a time or in bursts, optionally with HTTP traffic interleaved, closed by [ReturnListenSockets +] SoftStop or HardStop; a case is non-trivial when >= 5 commands reached the worker; distinct = distinct (mode, verb sequence) shapes",
+    );
+    rep.assume("verbs the main process never forwards to workers (SaveState, ListWorkers, ...) are outside the quantifier and never sent");
+    rep.assume("SoftStop/HardStop are only sent last; ReturnListenSockets mid-sequence only in raw mode (the main process sends it only right before SoftStop)");
+    rep.assume("HTTP routing expectation uses exact hosts, prefix paths, tree position, no method (C04 covers the router); frontends outside that model are exempt from route probes");
+    rep.assume("empty buckets (backends/tcp_fronts/udp_fronts/certificates) are normalised in the convergence comparison (strict comparison is C07's); UDP listeners are covered by exactly-once and convergence only, HTTPS listeners by a liveness probe only");
+    rep.assume("a frontend whose cluster was removed while its backends remain: 200 from one of those backends or 503 are both accepted");
+    lab::raise_fd_limit();
+    for k in [
+        "sequences/raw", "sequences/master_filtered", "sequences/bursts", "sequences/one_at_a_time", "sequences/with_interleaved_traffic",
+        "ids_accounted", "convergence/hashes_checked", "convergence/cluster_by_id_checked", "convergence/dump_checked", "convergence/backend_table_checked",
+        "listener_probes/active", "listener_probes/active_served", "listener_probes/refused_as_expected", "route_probes", "route_probes/landed_on_backend_of_cluster",
+        "c07_failure_checked", "closing/SoftStop/exited", "closing/soft_stop_event_logs_checked", "bursts",
+        "pattern/listener:add-activate-deactivate-reactivate", "pattern/listener:remove-while-active", "pattern/listener:add-remove-never-activated",
+        "pattern/backend:same-id-two-addresses", "pattern/backend:same-address-two-ids", "pattern/cluster:remove-with-frontends-and-backends-left",
+        "pattern/frontend:added-before-its-listener",
+    ] {
+        rep.require(k);
+    }
+    for v in WORKER_VERBS {
+        rep.require(&format!("verb/{v}/sent"));
+    }
+    if let Some(path) = &ctx.replay {
+        let v: Value = serde_json::from_str(&std::fs::read_to_string(path).unwrap_or_default()).unwrap_or(Value::Null);
+        let cases: Vec<u64> = v["witnesses"].as_array().map(|a| a.iter().filter_map(|w| w["case"].as_u64()).collect()).unwrap_or_default();
+        for c in cases {
+            run_case(ctx, c, &mut rep);
+        }
+        return rep;
+    }
+    let n = ctx.opt_u64("cases", ctx.tier.pick(380, 7600));
+    // cells mostly wait (sockets, timers): run more cells than cores; keep part of the budget for
+    // minimising the witnesses
+    let mut phase1 = ctx.clone();
+    phase1.threads = ctx.opt_u64("cells", (ctx.threads as u64 * 4).min(64)) as usize;
+    phase1.budget = ctx.budget.mul_f64(ctx.tier.pick(0.58, 0.85));
+    par_cases(&phase1, &mut rep, n, |i, r| run_case(&phase1, i, r));
+    if ctx.opt_u64("shrink", 1) == 1 {
+        minimise_witnesses(ctx, &mut rep);
+    }
     rep
+}
+
+/// phase 2: for each signature, re-generate the shortest witness's plan and minimise it
+fn minimise_witnesses(ctx: &Ctx, rep: &mut Report) {
+    let deadline = ctx.started + ctx.budget.mul_f64(ctx.tier.pick(0.84, 0.96));
+    let mut by_sig: BTreeMap<String, usize> = BTreeMap::new();
+    for (i, v) in rep.violations.iter().enumerate() {
+        // prefer a master-filtered witness (what production can reach), then the shortest
+        let rank = |w: &Value| (w["plan"]["mode"].as_str() == Some("raw"), w["commands"].as_u64().unwrap_or(u64::MAX));
+        let len = rank(&v.witness);
+        match by_sig.get(&v.signature) {
+            Some(j) if rank(&rep.violations[*j].witness) <= len => {}
+            _ => {
+                by_sig.insert(v.signature.clone(), i);
+            }
+        }
+    }
+    let jobs: Vec<(usize, String, u64, Value)> = by_sig.into_iter().map(|(sig, i)| {
+        let w = &rep.violations[i].witness;
+        (i, sig, w["case"].as_u64().unwrap_or(0), w["detail"].clone())
+    }).collect();
+    let max_len = ctx.opt_u64("max_len", 200) as usize;
+    let budget = ctx.opt_u64("shrink_runs", ctx.tier.pick(24, 80)) as usize;
+    let results: Vec<(usize, Option<(Plan, usize, Option<Value>)>)> = std::thread::scope(|sc| {
+        let hs: Vec<_> = jobs.iter().map(|(i, sig, case, detail)| {
+            sc.spawn(move || {
+                let mut rng = Rng::for_case(ctx.seed, 8, *case);
+                let plan = generate(&mut rng, Cell { ip: lab::fresh_ip() }, max_len);
+                let r = crate::common::guard(|| minimise(ctx, &plan, sig, detail, budget, deadline));
+                let r = match r {
+                    Ok(Some((small, runs))) => {
+                        let again = run_plan(&small);
+                        let obs = again.viol.iter().find(|x| &x.sig == sig).map(|x| json!({"what": x.what, "detail": x.detail}));
+                        Some((small, runs, obs))
+                    }
+                    _ => None,
+                };
+                (*i, r)
+            })
+        }).collect();
+        hs.into_iter().filter_map(|h| h.join().ok()).collect()
+    });
+    for (i, r) in results {
+        rep.obs("witnesses_considered_for_minimisation", 1);
+        if let Some((small, runs, obs)) = r {
+            rep.obs("minimisation_reruns", runs as u64);
+            rep.obs("witnesses_minimised", 1);
+            rep.violations[i].witness["minimised"] = json!({"commands": small.cmds.len(), "reruns": runs,
+                "reproduced_on_final_rerun": obs.is_some(), "plan": plan_json(&small), "observation": obs});
+        }
+    }
 }
